@@ -174,8 +174,9 @@ NUC_REV = ["JC69", "F81", "K80", "HKY85", "TN93", "GTR"]
 NUC_NS = ["GN", "ssGN"]
 CODON = ["MG94HKY", "MG94GTR", "GY94", "Y98", "CNFHKY", "CNFGTR", "H04G", "H04GK", "H04GGK", "GNC"]
 PROTEIN = ["DSO78", "JTT92", "AH96", "AH96_mtmammals", "WG01"]
-DINUC = ["DINUC_tuple", "DINUC_conditional", "DINUC_monomer"]  # user-built predicate models
+DINUC = ["DINUC_tuple", "DINUC_conditional", "DINUC_monomer", "DINUCGTR_conditional", "DINUCGTR_monomer", "DINUCGN_tuple"]  # user-built predicate models
 GTR_PAIRS = ["A/C", "A/G", "A/T", "C/G", "C/T"]
+GTR_PAIRS_XY = ["AC", "AG", "AT", "CG", "CT"]
 GN_PARS = [f"{f}>{t}" for f, t in itertools.permutations("ACTG", 2) if not (f == "T" and t == "G")]
 SSGN_GROUPS = {
     "(A>G | T>C)": [("A", "G"), ("T", "C")],
@@ -184,7 +185,7 @@ SSGN_GROUPS = {
     "(C>T | G>A)": [("C", "T"), ("G", "A")],
     "(G>T | C>A)": [("G", "T"), ("C", "A")],
 }
-STATIONARY = set(NUC_REV + ["MG94HKY", "MG94GTR", "GY94", "Y98", "CNFHKY", "CNFGTR", "H04G", "H04GK", "H04GGK"] + PROTEIN + DINUC)
+STATIONARY = set(NUC_REV + ["MG94HKY", "MG94GTR", "GY94", "Y98", "CNFHKY", "CNFGTR", "H04G", "H04GK", "H04GGK"] + PROTEIN + [m for m in DINUC if m != "DINUCGN_tuple"])
 REVERSIBLE = set(STATIONARY)
 
 
@@ -203,6 +204,10 @@ def kind_of(model):
 def rate_param_names(model):
     if model in ("JC69", "F81") or model in PROTEIN:
         return []
+    if model.startswith("DINUCGTR"):
+        return list(GTR_PAIRS)
+    if model == "DINUCGN_tuple":
+        return list(GN_PARS)
     if model in ("K80", "HKY85") or model in DINUC:
         return ["kappa"]
     if model == "TN93":
@@ -232,7 +237,7 @@ def mprob_kind(model):
     """what the model's 'motif probs' are over: 'fixed-equal', 'states', 'monomer'"""
     if model in ("JC69", "K80"):
         return "fixed-equal"
-    if model in ("MG94HKY", "MG94GTR", "DINUC_monomer"):
+    if model in ("MG94HKY", "MG94GTR", "DINUC_monomer", "DINUCGTR_monomer"):
         return "monomer"
     return "states"
 
@@ -253,9 +258,16 @@ def _make_model(model, **kw):
     from cogent3 import get_model
 
     if model in DINUC:
+        from cogent3.evolve.ns_substitution_model import NonReversibleDinucleotide
+        from cogent3.evolve.predicate import MotifChange
         from cogent3.evolve.substitution_model import TimeReversibleDinucleotide
 
-        return TimeReversibleDinucleotide(predicates=["kappa"], mprob_model=model.split("_")[1], name=model, recode_gaps=True, model_gaps=False, **kw)
+        fam, mp = model.split("_")
+        if fam == "DINUCGN":
+            preds = [MotifChange(f, t, forward_only=True) for f, t in itertools.permutations("ACTG", 2) if not (f == "T" and t == "G")]
+            return NonReversibleDinucleotide(predicates=preds, mprob_model=mp, name=model, recode_gaps=True, model_gaps=False, **kw)
+        preds = ["kappa"] if fam == "DINUC" else [MotifChange(x, y) for x, y in GTR_PAIRS_XY]
+        return TimeReversibleDinucleotide(predicates=preds, mprob_model=mp, name=model, recode_gaps=True, model_gaps=False, **kw)
     return get_model(model, **kw)
 
 
@@ -267,6 +279,10 @@ def _nuc_rate(model, params, a, b):
     """relative rate r(a->b) for a single-nucleotide change under the nucleotide part of `model`"""
     if model in ("JC69", "F81") or model in PROTEIN:
         return 1.0
+    if model.startswith("DINUCGTR"):
+        return params.get("/".join(sorted([a, b])), 1.0)
+    if model == "DINUCGN_tuple":
+        return params.get(f"{a}>{b}", 1.0)
     if model in ("K80", "HKY85", "MG94HKY", "CNFHKY", "GY94", "Y98", "H04G", "H04GK", "H04GGK") or model in DINUC:
         return params["kappa"] if is_transition(a, b) else 1.0
     if model == "TN93":
@@ -330,11 +346,11 @@ def build_Q(model, states, params, mprobs, sm=None):
                     if mask[i, j]:
                         r *= params[name]
                 # frequency weighting
-                if model in NUC_NS or model == "GNC":
+                if model in NUC_NS or model in ("GNC", "DINUCGN_tuple"):
                     w = 1.0
                 elif mprob_kind(model) == "monomer":
                     w = mono[y[p]]
-                elif model in ("CNFHKY", "CNFGTR", "DINUC_conditional"):
+                elif model in ("CNFHKY", "CNFGTR", "DINUC_conditional", "DINUCGTR_conditional"):
                     ctx = sum(wp[index[s]] for s in states if all(s[q] == y[q] for q in range(wl) if q != p))
                     w = wp[j] / ctx if ctx else 0.0
                 else:  # state-frequency models (F81.., GY94, Y98, H04*, DINUC_tuple); conditional == π_j for monomers
